@@ -1017,8 +1017,12 @@ impl World {
         let h2 = handle.clone();
         let pool = handle.pool().clone();
         let conn = pool.get().await.map_err(|e| e.to_string())?;
+        let t_wait = Instant::now();
         tokio::task::spawn_blocking(move || h2.max_change_id(&conn).map(|_| ())).await.map_err(|e| e.to_string())?.map_err(|e| e.to_string())?;
         let t_hi = Instant::now();
+        // `max_change_id` returns when the state flips to Running (the timer is created right after): if it
+        // had to wait, the flip happened just now; otherwise some time since the request was made
+        let (t_lo, t_hi) = if t_hi - t_wait >= Duration::from_millis(2) { (t_hi - Duration::from_millis(3), t_hi) } else { (t_lo, t_wait) };
         // initial rows
         let mut replay = BTreeMap::new();
         let mut cells_list = vec![];
